@@ -45,6 +45,7 @@ def cases(tier, seed):
         out += [("filters", s, "16") for s in F.sliced(F.K4(), seed % 16, 16)]
         out += [("filters", s, "16") for s in F.P_SMALL + F.P_HUGE]
         out += [("filters", s, "5") for s in F.P_LARGE]
+        out += [("filters", s, "5") for s in F.sliced(F.K5(), seed % 128, 128)]
     else:
         out += [("filters", s, "64") for s in F.K3()]
         out += [("filters", s, "16") for s in F.K4()]
